@@ -640,7 +640,7 @@ def c09(rep, tier, seed, wd):
                     rep.note_foreign(p)
     # what the builder appended must BE the RFC fingerprint: the specification (CRC-32 in TLA+) accepts the message
     for case, obs, exp, hang in triples:
-        if case["src"].startswith("fingerprinted message") and not exp["parse"]["ok"]:
+        if case["src"].startswith("fingerprinted message") and "(builder" in case["src"] and not exp["parse"]["ok"]:
             rep.violation("%s: the serialised message does not satisfy the FINGERPRINT relation of the specification (%s)" % (
                 case["src"], json.dumps(exp["parse"])), {"kind": "codec_case", "case": slim(case)})
     nb = sum(1 for g in gm if not g["gen"]["by_ext"])
@@ -684,9 +684,11 @@ def c04(rep, tier, seed, wd):
         if not case["src"].startswith("sealed message") or "byte" in case["src"] or "bit " in case["src"]:
             continue
         legal = "trunc=12" not in case["src"] and "trunc=18" not in case["src"] and "trunc=36" not in case["src"]
+        if not legal:
+            continue
         if not exp["parse"]["ok"]:
             rep.violation("%s: rejected by the specification's parser: %s" % (case["src"], json.dumps(exp["parse"])), {"kind": "codec_case", "case": slim(case)})
-        elif legal:
+        else:
             plan = exp["acc"]["plan"]
             if not (plan["present"] and plan["lenOk"] and oracle_mac_ok(plan, oracle_key(exp["keyplans"][0]))):
                 rep.violation("%s: the integrity attribute is not the RFC HMAC of the message under the sealing credentials (independent oracle)" % case["src"],
